@@ -17,6 +17,9 @@ CfgAll   == ConfigsQuick \cup ConfigsSingles \cup ConfigsPairs
 \* MaxPerm folds "many" keys onto the same walks as 2 or 3 keys: the quick run leaves the Many-level deviations out
 ProgsW1Low == {q \in ProgsW1 : \A f \in {"ann", "ns", "mapConst", "mapDefault", "inc", "defs"} : q[f] # Many}
 
+\* Full walks six leaky sites under reflection: explored with three configurations only
+CfgFull  == {x \in ConfigsQuick : x.name \in {"go+reflection", "fastgo+no_fmt", "go/dump"}}
+
 Dirs2 == {"out1", "out2"}
 StaleAny  == SUBSET Dirs2
 StaleBoth == {{}, Dirs2}
